@@ -54,6 +54,27 @@ TNonce(e) ==
   /\ seen' = seen \cup SetOf(e.out) /\ nch' = nch + Len(e.out)
   /\ UNCHANGED allvars
 
+(* run {a, times, rle}: the same call `times` times, replies run-length encoded *)
+TRun(e) ==
+  /\ IF e.a.op = "verify" THEN VerifyRunLegal(e.a, e.times, e.rle)
+     ELSE e.a.op = "send" /\ SendRunLegal(e.a, e.times, e.rle)
+  /\ GhostRun(e.a, e.times)
+  /\ last' = e.a
+  /\ UNCHANGED <<cfg, ent, nh, seen, nch>>
+
+(* alpha {what, alpha, len, n, pos, bad}: n outputs of length len were drawn; pos[i] is the    *)
+(* set of characters seen at position i, bad the number of outputs of another length or with *)
+(* foreign characters.  Every character must have occurred AT EVERY POSITION once n is large  *)
+(* enough: a uniform generator misses one of m characters at one position with probability   *)
+(* m*(1-1/m)^n <= m*exp(-45) < 1e-17 for n >= 45*m (fewer than 1e4 positions per run).        *)
+TAlpha(e) ==
+  /\ LET want == IF e.what = "codes" THEN AlphaSet ELSE SetOf(e.alpha) IN
+       /\ e.bad = 0
+       /\ Len(e.pos) = e.len
+       /\ e.what = "codes" => e.len = cfg.len /\ ~cfg.mock
+       /\ e.n >= 45 * Cardinality(want) => \A i \in 1..e.len : SetOf(e.pos[i]) = want
+  /\ UNCHANGED <<allvars, seen, nch>>
+
 TCover(e) ==
   /\ LET want == IF e.what = "codes" THEN AlphaSet ELSE SetOf(e.alpha) IN
        Enough(Cardinality(want), nch) => want \subseteq seen
@@ -66,6 +87,8 @@ Consume ==
          [] e.ev = "call"  -> TCall(e)
          [] e.ev = "nonce" -> TNonce(e)
          [] e.ev = "cover" -> TCover(e)
+         [] e.ev = "run"   -> TRun(e)
+         [] e.ev = "alpha" -> TAlpha(e)
          [] OTHER -> FALSE
 
 TraceNext == Consume
